@@ -122,6 +122,9 @@ func (e *Engine) leaves(t types.Type) []Leaf {
 	if isTimeType(t) || t == mathIntT {
 		return []Leaf{{"", "Int", t, lkTime}}
 	}
+	if t == byteStreamT {
+		return []Leaf{{"", "(Array Int Int)", t, lkTime}}
+	}
 	switch u := t.Underlying().(type) {
 	case *types.Basic:
 		if w, _, ok := intInfo(u); ok {
@@ -179,7 +182,7 @@ func (e *Engine) leaves(t types.Type) []Leaf {
 
 // flatten an SV of type t into its leaf terms.
 func (e *Engine) flatten(t types.Type, v SV) []string {
-	if isTimeType(t) || t == mathIntT {
+	if isTimeType(t) || t == mathIntT || t == byteStreamT {
 		return []string{v.(*Sc).T}
 	}
 	switch u := t.Underlying().(type) {
@@ -258,7 +261,7 @@ func (e *Engine) ptrTerm(v SV) string {
 
 // unflatten builds an SV of type t from leaf terms; returns remaining terms.
 func (e *Engine) unflatten(t types.Type, ts []string) (SV, []string) {
-	if isTimeType(t) || t == mathIntT {
+	if isTimeType(t) || t == mathIntT || t == byteStreamT {
 		return &Sc{ts[0]}, ts[1:]
 	}
 	switch u := t.Underlying().(type) {
